@@ -1,13 +1,13 @@
-\* negative control: without the carve-out for short lengths into trailing white space ExtentOK fails
+\* negative control: an indirect /Length that resolves to null taken as 0 (code before 8dab642) must violate ExtentOK
 SPECIFICATION Spec
 CONSTANTS OFFBYONE = FALSE
-  NULLZERO = FALSE
+  NULLZERO = TRUE
   Objs = {1, 2, 3}
   MaxRevs = 2
   Styles = {"one", "each", "runs"}
   ZeroFree = TRUE
   MaxPieces = 4
-  STRICT_LENGTH = TRUE
+  STRICT_LENGTH = FALSE
 CONSTRAINT PiecesBound
 INVARIANTS LookupOK TrailerOK FileOK ExtentOK CorrectOK DivergenceIs
 CHECK_DEADLOCK FALSE
